@@ -654,6 +654,32 @@ func vortexSome(r *vlib.Run, g string, n int, stride int) {
 		r.FailIn(g, "vortex/root-differs-from-model", fmt.Sprintf("n=%d", n), "root/depth differ from recursive model", nil)
 		return
 	}
+	// the same leaves as the head of a larger, dirty buffer (pool[:n] with non-zero data behind len): the padding leaves
+	// are zero hashes, not whatever the caller's backing array holds, and nothing behind len is written
+	{
+		pool := make([]vortex.Hash, 2*size+3)
+		for k := range pool {
+			pool[k] = vleaf(7000 + k)
+		}
+		copy(pool, leaves)
+		snap := append([]vortex.Hash{}, pool...)
+		mt2 := vortex.BuildMerkleTree(pool[:n])
+		r.AddStates(1)
+		if mt2.Root() != wantRoot || mt2.Depth() != depth {
+			r.FailIn(g, "vortex/root-depends-on-spare-capacity", fmt.Sprintf("n=%d", n), fmt.Sprintf("BuildMerkleTree(pool[:%d]) over a buffer of capacity %d with non-zero data behind len: root/depth differ from the zero-padded tree of the %d leaves", n, len(pool), n), nil)
+		}
+		for k := range pool {
+			if pool[k] != snap[k] {
+				r.FailIn(g, "vortex/build-mutates-input", fmt.Sprintf("n=%d,pool", n), "BuildMerkleTree wrote into the caller's buffer (behind or before len)", nil)
+				break
+			}
+		}
+		if n >= 1 && n <= size {
+			if pr, err := mt2.Open(n - 1); err != nil || pr.Verify(n-1, leaves[n-1], wantRoot) != nil {
+				r.FailIn(g, "vortex/open-after-pooled-build", fmt.Sprintf("n=%d", n), fmt.Sprintf("opening of the last committed leaf of a tree built from pool[:n] does not verify against the model root (err=%v)", err), nil)
+			}
+		}
+	}
 	for i := 0; i < size; i++ {
 		if stride > 1 && !(i < 3 || i >= size-3 || i%stride == 0) {
 			continue
